@@ -26,7 +26,10 @@ func NewAacPacketizer(meta *codec.AudioMeta, tsframeWriter FrameWriter) Packetiz
 		meta:          meta,
 		tsframeWriter: tsframeWriter,
 	}
-	ap.prepareAsc()
+	if err := ap.prepareAsc(); err != nil {
+		// 无法解析 AudioSpecificConfig：不转换音频，而不是在首个音频帧上 panic 使整个 ts 转换停止
+		return emptyPacketizer{}
+	}
 	return ap
 }
 
